@@ -217,10 +217,17 @@ def scanOut (label : String) (MAX : Nat) (cb : String) (rules : List RuleDecl) (
   match r.2 with
   | some e => s!" {label}={errName e}{tmm}"
   | none =>
-    let shown := rules.zipIdx.filter fun (rd, _) => rd.name.startsWith showPrefix
-    let res := shown.map fun (rd, sid) =>
-      let l := r.1.lists sid
-      s!"{rd.name}:{if l.count ≥ rd.atLeast then 1 else 0}:{showStr rd.str.id l}"
+    -- consecutive entries with the same rule name are the strings of ONE rule (condition: every `#s >= K` holds)
+    let rec group : List (RuleDecl × Nat) → List (String × List (RuleDecl × Nat))
+      | [] => []
+      | x :: xs =>
+        match group xs with
+        | (n, ys) :: rest => if n == x.1.name then (n, x :: ys) :: rest else (x.1.name, [x]) :: (n, ys) :: rest
+        | [] => [(x.1.name, [x])]
+    let shown := (group rules.zipIdx).filter fun (n, _) => n.startsWith showPrefix
+    let res := shown.map fun (n, strs) =>
+      let ok := strs.all fun (rd, sid) => decide ((r.1.lists sid).count ≥ rd.atLeast)
+      s!"{n}:{if ok then 1 else 0}:" ++ ":".intercalate (strs.map fun (rd, sid) => showStr rd.str.id (r.1.lists sid))
     let resS := if res.isEmpty then "" else s!" {label}.res=" ++ ",".intercalate res
     s!" {label}=OK{tmm}{resS}"
 
@@ -312,6 +319,9 @@ def handle (line : String) : String :=
     let body := match cmd with
       | "settimeout" =>
         " " ++ " ".intercalate (((getD kv "s" "0").splitOn ",").filterMap fun t => t.toInt?.map fun v => s!"{v}:{specTimeoutNs v}")
+      | "cfg" =>
+        -- specification of the configuration API: what was set is what is read back, through every accessor, return codes 0
+        " " ++ " ".intercalate (((getD kv "v" "0").splitOn ",").filterMap fun t => t.toNat?.map fun v => s!"{v}:{v},{v},{v}:0")
       | "scanblocks" =>
         -- virtual clock: block j (0-based) starts after j deliveries of `sleep_ms`; the clock is read at the start of every block
         -- (byte position 0 is a multiple of the stride) and compared with the deadline
